@@ -60,7 +60,7 @@ CLAIMED["C17"] = dict(
     note="NFC is modelled on kana + combining (han)dakuten only; arbitrary Unicode is run on the implementation for totality but "
          "not compared with the model. The model's decomposition decompKana is compared with Unicode NFD on the whole kana block; the "
          "real server's GetAlphabeticCandidate is compared with the library. "
-         "16 client-inverse witnesses are known findings (known_findings.json). "
+         "11 client-inverse witnesses are known findings (5 vowel rows repaired by 6487e3c) (known_findings.json). "
          "Axioms: propext, Classical.choice, Quot.sound.",
     design="5/C17")
 
